@@ -76,7 +76,7 @@ theorem writeHintedName_round_trip (hint : Hint) (n : WName) (s : State) (h : WI
         s.cursor = some (w, n.len, k) ∧
       w.map lowerU8 = n.wire.map lowerU8 ∧ (s.mode ≠ .standard → w = n.wire) := by
   have hs := writeHintedName_spec hint n s h hn hh
-  obtain ⟨hw', _, _, _, _, ls, hrd, hmt⟩ := hs.ok p hok
+  obtain ⟨hw', _, _, _, _, ⟨ls, hrd, hmt⟩, _⟩ := hs.ok p hok
   have hc : (writeHintedName hint n s).2.cursor ≤ (writeHintedName hint n s).2.octets.size :=
     Nat.le_trans hw'.cur_av hw'.av_size
   obtain ⟨k, hd⟩ := readsAt_specDecodeName hrd hc
